@@ -91,7 +91,11 @@ def same_value(a, b):
         return True
     if type(a) is not type(b):
         return False
-    if isinstance(a, (ParserV, ComposerV, ObjV, ListV, DictV, BytesV)):
+    if isinstance(a, DictV):
+        # two copies of one mapping (every branch gets its own) that hold the same entries
+        return a.complete == b.complete and not a.star and not b.star and len(a.pairs) == len(b.pairs) and \
+            all(same_value(k1, k2) and (v1 is v2 or same_value(v1, v2)) for (k1, v1), (k2, v2) in zip(a.pairs, b.pairs))
+    if isinstance(a, (ParserV, ComposerV, ObjV, ListV, BytesV)):
         return False
     try:
         return a == b
@@ -327,6 +331,8 @@ class Interp(ExprMixin, CallMixin):
             idx = self.eval(target.slice, fr) if not isinstance(target.slice, ast.Slice) else Sym('sliceobj')
             if isinstance(base, DictV):
                 base.set(idx, value)
+                if not is_const(idx) and not isinstance(idx, EnumMember):
+                    base.complete = False       # a key that is not a constant of the source: what the mapping holds is open
             elif isinstance(base, ListV):
                 if isinstance(idx, int) and base.complete and -len(base.items) <= idx < len(base.items):
                     base.items[idx] = value
@@ -837,6 +843,7 @@ class Interp(ExprMixin, CallMixin):
         sub.cond_depth += 1
         before = dict(sub.env)
         list_lens = {n: len(v.items) for n, v in sub.env.items() if isinstance(v, ListV)}
+        dict_state = {n: (len(v.pairs), v.complete) for n, v in sub.env.items() if isinstance(v, DictV)}
         if elem is not None:
             self.bind_target(st.target, elem, sub, st)
         status = self.exec_body(st.body, sub)
@@ -860,6 +867,10 @@ class Interp(ExprMixin, CallMixin):
                     # ``while True`` that is left by ``break`` only, and every ``break`` comes after an append of the same pass
                     from .values import show as _show
                     fr.nonempty.add(_show(fr.env[n]))
+                continue
+            if isinstance(new, DictV) and new is old and n in dict_state and dict_state[n] != (len(new.pairs), new.complete):
+                # a mapping filled by the loop: what it holds after an unknown number of passes is open
+                fr.env[n] = DictV(list(new.pairs), False)
                 continue
             if same_value(old, new):
                 fr.env[n] = old if n in fr.env else new
